@@ -28,17 +28,25 @@ Inductive etext :=
 Record sresp := mkResp {
   r_seq : N; r_path : nat; r_meth : nat; r_ser : N;
   r_hb : bool; r_oneway : bool;
-  r_status : status; r_err : option etext; r_payload : nat }.
+  r_status : status; r_err : option etext; r_payload : nat;
+  r_meta : list (nat * nat) }.     (* response metadata other than the reserved error key *)
 
 Section Dispatch.
 Variable find : nat -> nat -> target.                (* router first, then service map *)
 Variable codec_ok : N -> bool.                       (* share.Codecs[ser] != nil *)
 Variable decodable : N -> nat -> bool.               (* codec.Decode(args) succeeds *)
 Variable handler : nat -> nat -> nat -> hres.        (* path, method, args *)
+Variable hmeta : nat -> nat -> nat -> list (nat * nat).   (* the response metadata the handler sets (share.ResMetaDataKey),
+                                                            keys other than the reserved error key *)
 
 (* res := req.Clone(); res.SetMessageType(Response) *)
 Definition base (q : sreq) (st : status) (e : option etext) (pl : nat) : sresp :=
-  mkResp (q_seq q) (q_path q) (q_meth q) (q_ser q) (q_hb q) (q_oneway q) st e pl.
+  mkResp (q_seq q) (q_path q) (q_meth q) (q_ser q) (q_hb q) (q_oneway q) st e pl [].
+
+(* processOneRequest / Context.Write merge the handler's response metadata into the response: keys that the
+   response already has with a non-empty value are kept - in particular the error text of a failed call *)
+Definition with_meta (r : sresp) (m : list (nat * nat)) : sresp :=
+  mkResp (r_seq r) (r_path r) (r_meth r) (r_ser r) (r_hb r) (r_oneway r) (r_status r) (r_err r) (r_payload r) m.
 
 Definition err_resp (q : sreq) (e : etext) : sresp := base q SError (Some e) 0.
 
@@ -51,10 +59,11 @@ Definition handle_reflected (q : sreq) : sresp * list invocation :=
   else if negb (decodable (q_ser q) (q_args q)) then (err_resp q (XDecode (q_ser q) (q_args q)), [])
   else
     let inv := [(q_path q, q_meth q, q_args q)] in
+    let m := hmeta (q_path q) (q_meth q) (q_args q) in
     match handler (q_path q) (q_meth q) (q_args q) with
-    | HReply p => (base q SNormal None p, inv)
-    | HFail t => (err_resp q (XExact t), inv)
-    | HPanic v => (err_resp q (XPanic v), inv)      (* service.call recovers and wraps the value *)
+    | HReply p => (with_meta (base q SNormal None p) m, inv)
+    | HFail t => (with_meta (err_resp q (XExact t)) m, inv)
+    | HPanic v => (with_meta (err_resp q (XPanic v)) m, inv)      (* service.call recovers and wraps the value *)
     end.
 
 (* processOneRequest: the frames written for one request, and the handlers that ran *)
@@ -66,11 +75,12 @@ Definition process (q : sreq) : list sresp * list invocation :=
       let inv := [(q_path q, q_meth q, q_args q)] in
       (* Context.Write / WriteError send nothing for a one-way request *)
       if q_oneway q then ([], inv)
-      else match handler (q_path q) (q_meth q) (q_args q) with
-           | HReply p => if codec_ok (q_ser q) then ([base q SNormal None p], inv)
-                         else ([err_resp q (XNoCodec (q_ser q))], inv)   (* Write fails, the handler's error goes to WriteError *)
-           | HFail t => ([err_resp q (XExact t)], inv)
-           | HPanic v => ([err_resp q (XPanicExact v)], inv)
+      else let m := hmeta (q_path q) (q_meth q) (q_args q) in
+           match handler (q_path q) (q_meth q) (q_args q) with
+           | HReply p => if codec_ok (q_ser q) then ([with_meta (base q SNormal None p) m], inv)
+                         else ([with_meta (err_resp q (XNoCodec (q_ser q))) m], inv)   (* Write fails, the handler's error goes to WriteError *)
+           | HFail t => ([with_meta (err_resp q (XExact t)) m], inv)
+           | HPanic v => ([with_meta (err_resp q (XPanicExact v)) m], inv)
            end
     | TNoService => if q_oneway q then ([], []) else ([err_resp q (XNoService (q_path q))], [])
     | TNoMethod => if q_oneway q then ([], []) else ([err_resp q (XNoMethod (q_meth q))], [])
